@@ -84,14 +84,21 @@ def ctor_facts(program):
     """__init__: which attributes receive which split; the claim flag expression; the removal loops"""
     fn = program.fn('decoder', f"{CLS}.__init__")
     ex = sym.SymExec(fn)
-    # single-assignment locals of the constructor are substituted (e.g. a lower-cased copy of the claim id)
-    local_vals = {}
-    for n in ast.walk(fn):
-        if isinstance(n, ast.Assign) and len(n.targets) == 1 and isinstance(n.targets[0], ast.Name):
-            local_vals.setdefault(n.targets[0].id, []).append(n.value)
-    for name, vals in local_vals.items():
-        if len(vals) == 1:
-            ex.state.env[name] = sym.SymExec(fn).expr(vals[0])
+    # locals of the constructor: the body up to (excluding) the first statement that contains a loop is walked by sym.py, so named
+    # intermediate values (a lower-cased copy of the claim id, parts of the flag formula) are substituted into the flag expression
+    prefix = []
+    for st in fn.body:
+        if any(isinstance(n, (ast.While, ast.For, ast.Try, ast.With)) for n in ast.walk(st)):
+            break
+        prefix.append(st)
+    fake = ast.FunctionDef(name='__init__$prefix', args=fn.args, body=prefix or [ast.Pass()], decorator_list=[], lineno=fn.lineno, col_offset=0)
+    pre = sym.SymExec(fake, consts=program.module_consts('decoder'))
+    try:
+        pre.run()
+    except sym.Unsupported:
+        pass
+    ex.state.env.update({k: v for k, v in pre.state.env.items() if k not in ex.params})
+    flag_from_prefix = {e[2][2]: e[3] for e in pre.events if e[0] == 'store' and e[2][0] == 'attr' and e[2][1] == ('param', 'self')}
     assigns = {}      # (attrA, attrB) <- param
     flag_expr = None
     flag_attr = None
@@ -123,7 +130,7 @@ def ctor_facts(program):
         raise AnalysisError('__init__: claim-suppression flag and its removal loops not found')
     for n in ast.walk(fn):
         if isinstance(n, ast.Assign) and len(n.targets) == 1 and isinstance(n.targets[0], ast.Attribute) and n.targets[0].attr == flag_attr:
-            flag_expr = (ex.expr(n.value), n.lineno, n.value)
+            flag_expr = (flag_from_prefix.get(flag_attr, ex.expr(n.value)), n.lineno, n.value)
     if flag_expr is None:
         raise AnalysisError(f"__init__: assignment of self.{flag_attr} not found")
     # exclusivity check of the constructor
@@ -148,9 +155,22 @@ def runtime_attrs(program, sf, cf, consts, exclude, include, dump=()):
     return attrs
 
 # ---------------------------------------------------------------------------
+MAIN_STAGES = {'_decode', '_decode_fast_message', '_call_decode_function', '__init__', '_isFastPGN', '_log_unsupported_pgn_once', 'split_pgn_list', 'close', '__enter__', '__exit__',
+               '_extract_header', 'decode_actisense_string', 'decode_yacht_devices_string', 'decode_basic_string', 'decode_tcp', 'decode_usb'}
+
+def helper_methods(program):
+    """small loop-free methods of the decoder other than the known stages: walked in place where they are called (predicates a refactoring extracted)"""
+    m = program.mod('decoder')
+    out = {}
+    for q, f in m.defs.items():
+        if q.startswith(CLS + '.') and q.split('.', 1)[1] not in MAIN_STAGES:
+            if not any(isinstance(n, (ast.For, ast.While, ast.Try, ast.With)) for n in ast.walk(f)):
+                out[q.split('.', 1)[1]] = f
+    return out
+
 def stage_events(program, qual):
     fn = program.fn('decoder', f"{CLS}.{qual}")
-    ex = sym.SymExec(fn)
+    ex = sym.SymExec(fn, inline_methods=helper_methods(program), consts=None)
     try:
         ex.run()
     except sym.Unsupported as u:
@@ -170,6 +190,7 @@ def make_model(attrs, consts, pgn, mid, extra_self=None, iso=None, now_after_win
     self_attrs.setdefault('include_manufacturer_code', set())
     self_attrs.setdefault('dump_TextIOWrapper', None)
     self_attrs.setdefault('preferred_units', {})
+    self_attrs.setdefault('source_to_iso_name', {7: iso} if iso is not None else {})
     if extra_self:
         self_attrs.update(extra_self)
     def calls(ev, t):
